@@ -22,5 +22,7 @@ func (m *Map[K, V]) CompareAndSwap(key K, old V, new V) (deleted bool) {
 }
 func (m *Map[K, V]) Swap(key K, value V) (previous V, loaded bool) {
 	previousUntyped, loaded := m.m.Swap(key, value)
-	return previousUntyped.(V), loaded
+	// previousUntyped is nil when the key was absent, or when a nil value of an interface type V was stored.
+	previous, _ = previousUntyped.(V)
+	return previous, loaded
 }
